@@ -302,7 +302,10 @@ class TTuple(T):
         raise Unsupported(f"cannot embed {v!r} as {self}")
 
     def project(self, st, term, origin=None):
-        return tuple(t.project(st, self.dt.accessor(0, i)(term)) for i, t in enumerate(self.items))
+        # a mutable container held in a tuple stored in a container: its origin names the slot and the tuple item,
+        # so that an in-place mutation (d[k][1].extend(...)) is written back (engine.writeback)
+        sub = (lambda i: (origin[0], origin[1], ("tuple", origin[2], self, i))) if origin is not None else (lambda i: None)
+        return tuple(t.project(st, self.dt.accessor(0, i)(term), sub(i)) for i, t in enumerate(self.items))
 
 
 class TDict(T):
